@@ -10,6 +10,7 @@ THEOREMS = [
     "Feox.C16.retired_generation_never_replaces", "Feox.C16.replace_needs_newer", "Feox.C16.sweepBucket_size",
     "Feox.C16.insert_inv", "Feox.C16.get_inv", "Feox.C16.remove_inv", "Feox.C16.evict_inv", "Feox.C16.clear_inv",
     "Feox.C16.adjust_inv", "Feox.C16.real_bucket_count_positive", "Feox.C16.second_chance", "Feox.C16.evicted_was_unreferenced", "Feox.C16.evict_reaches_low", "Feox.C16.full_pass", "Feox.C16.sweepBucket_full",
+    "Feox.C16.cache_moves_invisible", "Feox.C16.cached_value_is_current",
 ]
 
 
@@ -99,6 +100,8 @@ def run(ctx):
                         txt += "# implementation:\n" + "".join("# " + l + "\n" for l in r[1]) + "# reference:\n" + "".join("# " + l + "\n" for l in r[2])
                     violation(ctx, "with the read cache enabled a call returns something else than the reference map (cache transparency)", txt)
     ctx.log("kv (cache on/off): %d lines, %d cases, %d with a difference" % (klines, kcases, kdiffs))
+    tcov = {}
+    kv_engine.tier_stage(ctx, kouts, tcov)
     cov = cov0({
         "evaluations": lines + klines, "distinct_nontrivial": len(distinct),
         "rule": "cache engine: random insert / insert_for_record / get / get_for_record / remove / remove_for_record / evict / clear / adjust sequences on the real ClockCache "
@@ -108,8 +111,9 @@ def run(ctx):
         "samples": samples, "cache_op_histogram": hist, "cache_stream_differences": diffs, "kv_cases": kcases, "kv_cases_with_difference": kdiffs,
         "traces_validated_against_impl": len(outs) + kcases,
     })
+    cov.update(tcov)
     return finish(ctx, "proof", cov, [
-        "store-level transparency (cache on = cache off) rests on the kv differential runs against one reference map, not on a refinement theorem",
+        "store-level transparency: Feox.Kv.Tiers proves that a cache entry tagged with the indexed generation holds that generation's value in every reachable state and that cache fill / eviction are invisible to reads (C16.cache_moves_invisible); the real store is tied to that model as a monitor (verif_tiers after every call: the cache copy of a generation equals its resident / device copy, observed moves are moves of the model) and by the kv differential runs with the cache on and off against one reference map",
         "`eviction reaches the low watermark` is proved for the model's single-threaded evict (evict_reaches_low: two full passes of the hand suffice, MAX_SCANS = 3) and checked on the implementation by the harness oracle; concurrent gets that re-set reference bits during an eviction are outside the model",
         "the bucket hash is abstract in the theorems (any hash); the driver instantiates it with murmur3_32, itself compared with the crate's",
         "concurrent readers/writers are outside this engine",
